@@ -257,7 +257,9 @@ def _tagged(raw, tag):
 
 
 N5K = b'9' * 5000
-CORPUS = [b'FETCH ' + N5K + b' FLAGS', b'SEARCH LARGER ' + N5K, b'FETCH 1 BODY[]<' + N5K + b'.1>', b'FETCH 1 BODY[' + N5K + b']', b'UID FETCH 1:' + N5K + b' FLAGS', b'APPEND INBOX {' + N5K + b'+}',
+CORPUS = [b'APPEND INBOX {28+}\r\nSubject: x\r\n\r\nends in {5+}', b'NOOP', b'APPEND INBOX {8+}\r\n\xe9\xe9\\\xe9a {2000+}', b'NOOP', b'APPEND INBOX {6+}\r\nA: b\r\n {6+}\r\nA: b\r\n',
+          b'LOGIN {5+}\r\n{1+}x {1+}\r\np', b'NOOP',
+          b'FETCH ' + N5K + b' FLAGS', b'SEARCH LARGER ' + N5K, b'FETCH 1 BODY[]<' + N5K + b'.1>', b'FETCH 1 BODY[' + N5K + b']', b'UID FETCH 1:' + N5K + b' FLAGS', b'APPEND INBOX {' + N5K + b'+}',
           b'SEARCH 1:' + N5K, b'STORE ' + N5K + b' +FLAGS (\\Seen)', b'SEARCH CHARSET "\xff" ALL', b'SEARCH CHARSET {1+}\r\n\x00 ALL', b'SEARCH CHARSET unicode_escape HEADER "\\\\ud800" x',
           b'SEARCH CHARSET utf-16 SUBJECT "ab"', b'SEARCH CHARSET utf-7 SUBJECT "+2AA-"', b'SEARCH CHARSET idna FROM "xn--"', b'SEARCH CHARSET rot13 BODY x', b'SEARCH CHARSET hex BODY zz',
           b'CREATE "&2AA-"', b'LIST "" *', b'CREATE "&2ADcAA-"', b'CREATE "&3AA-"', b'LIST "" "&2AA-"', b'SELECT "&2AA-"', b'RENAME INBOX "&2AA-"', b'LIST "" *',
